@@ -65,8 +65,16 @@ func init() {
 	}
 }
 
-func getTok(kind string) tokenizers.ITokenizer    { return tokPools[kind].Get().(tokenizers.ITokenizer) }
-func putTok(kind string, t tokenizers.ITokenizer) { tokPools[kind].Put(t) }
+func getTok(kind string) tokenizers.ITokenizer { return tokPools[kind].Get().(tokenizers.ITokenizer) }
+
+// putTok hands a tokenizer back to the pool in a deliberately "dirty" state: a reader over another input
+// with one token peeked but not fetched. A correct tokenizer forgets all of it on the next SetReader, so the
+// pooled path doubles as a cheap history-independence probe (failures seen only there are reported as such).
+func putTok(kind string, t tokenizers.ITokenizer) {
+	t.SetReader(rio.NewStringScanner("zz <> 9 'q"))
+	t.HasNextToken()
+	tokPools[kind].Put(t)
+}
 
 func setOptions(t tokenizers.ITokenizer, bits int) {
 	t.SetSkipUnknown(bits&optSkipUnknown != 0)
